@@ -39,7 +39,7 @@ def apply_allele_filter(record, field, func, value):
     else:
         n_alts = len(alts)
     observations = record.info.get(field)
-    if observations is None:
+    if observations is None or None in observations:
         keep = np.ones(1 + n_alts, dtype=bool)
     elif length == 'R':
         assert len(observations) == 1 + n_alts
